@@ -10,7 +10,7 @@ import (
 func init() {
 	Registry["C02"] = RuleDef{Module: ".", Run: runC02,
 		Technique:   "lock-set analysis, guarded-field rule, condition-variable discipline (wait-in-loop, monitor rule, state-change=>wake-up), slot state-machine guards, index-mask rule and token-cycle rule on go/ssa over ring.go and flowbuffer.go",
-		Explanation: "Decides structural necessary conditions of the queue hand-off: (R02a) every lock taken in ring.go is released on all paths, except the acquiring wrapper NextResultCh, which returns holding the slot lock on the path on which it took a slot and is paired with the releasing wrapper FinishResult; (R02b) every access of a slot's mark/one/multi/resps/slept happens under that slot's mutex; (R02c) every Cond.Wait sits in a loop that re-reads the slot state, every wake-up obeys the monitor rule (c1 and c2 share one mutex by construction), and a store of mark=1 is followed on all paths by a wake-up of the writer's condition unless the slept flag read in the same critical section is false; (R02f) the slot state machine: mark=1 only after mark==0 was established, mark=2 only under mark==1, mark=0 only under mark==2 together with clearing the slot, and the speculative cursor increment is undone on the arm where the state test failed; (R02d) the slot array and mask are written only by the constructor, the array length is a power of two (2<<k), mask=len-1, and every slot index is masked; (R02e) the flow buffer's three channels have the same capacity, the free list is pre-filled with exactly that many tokens, and every queue method moves a token along the cycle f->w->r->f (receive before send, exactly one send per received token).",
+		Explanation: "Decides structural necessary conditions of the queue hand-off: (R02a) every lock taken in ring.go is released on all paths, except the acquiring wrapper NextResultCh, which returns holding the slot lock on the path on which it took a slot and is paired with the releasing wrapper FinishResult; (R02b) every access of a slot's mark/one/multi/resps/slept happens under that slot's mutex; (R02c) every Cond.Wait sits in a loop that re-reads the slot state, every wake-up obeys the monitor rule (c1 and c2 share one mutex by construction), and a store of mark=1 is followed on all paths by a wake-up of the writer's condition unless the slept flag read in the same critical section is false; (R02f) the slot state machine: mark=1 only after mark==0 was established, mark=2 only under mark==1, mark=0 only under mark==2 together with clearing the slot, and the speculative cursor increment is undone on the arm where the state test failed; (R02d) the slot array and mask are written only by the constructor, the array length is a power of two (2<<k), mask=len-1, and every slot index is masked; (R02e) the flow buffer's three channels have the same capacity, the free list is pre-filled with exactly that many tokens, and every queue method moves a token along the cycle f->w->r->f (receive before send, exactly one send per received token). (R02h) every result the reader delivers - in its failure handler too - is followed by the release of the request's slot.",
 		NotDecided:  "FIFO order and exactly-once hand-off across interleavings, absence of deadlock with more callers than slots (model-checking questions outside this technique)."}
 }
 
@@ -95,6 +95,25 @@ func runC02(r *Report) {
 				func(x Site) bool { _, is := CallTo(x.Instr, "iface:rueidis.queue.FinishResult"); return is })
 			r.ObSite("R02a", s, "wrapper-pairing", ok && !again, "every NextResultCh (which may return holding a slot lock) is followed by FinishResult before the next NextResultCh and before return")
 		}
+	}
+
+	// R02h: the reader releases the slot of every request it completed: each send on a result channel
+	// in the reader (its failure handler included) is followed by FinishResult on every path. The
+	// slot lock is held since NextResultCh; the teardown loop's own NextResultCh overwrites the
+	// recorded condition, so a missed release there is never made up for.
+	if rd := r.FnAnchor("R02h", "rueidis.(*pipe)._backgroundRead"); rd != nil {
+		nSend := 0
+		for _, f := range WithAnons(rd) {
+			for _, s := range Sites(f, func(in ssa.Instruction) bool {
+				sd, ok := in.(*ssa.Send)
+				return ok && strings.Contains(shortType(sd.Chan.Type()), "RedisResult")
+			}) {
+				nSend++
+				ok, _ := MustPass(s, func(in ssa.Instruction) bool { _, is := CallTo(in, "iface:rueidis.queue.FinishResult"); return is })
+				r.ObSite("R02h", s, "delivered-request-releases-its-slot", ok, "after the reader delivered a request's result it releases the request's queue slot (FinishResult) on every path")
+			}
+		}
+		r.Anchor("R02h", "reader result deliveries (>= 2)", nSend >= 2)
 	}
 
 	// R02g: a slot is released only after its reply was delivered: no send on a result channel is
